@@ -66,6 +66,37 @@ func init() {
 	}
 }
 
+// measure: what every Stack and Condition node reports about its own size, preorder (Measure of spec/Trees.tla)
+func measure(x any) []any {
+	out := []any{}
+	if s, ok := stackage.ConvertStack(x); ok {
+		out = append(out, map[string]any{"t": "stk", "len": s.Len(), "nesting": b2s(s.IsNesting()), "empty": b2s(s.IsEmpty())})
+		// the elements through the raw Unmarshal-free path: Index on a copy of the options would skip nil ones, which report nothing anyway
+		for i := 0; i < s.Len(); i++ {
+			if e, ok := rawIndex(s, i); ok {
+				out = append(out, measure(e)...)
+			}
+		}
+	} else if c, ok := stackage.ConvertCondition(x); ok {
+		out = append(out, map[string]any{"t": "cnd", "len": c.Len(), "nesting": b2s(c.IsNesting()), "empty": "n/a"})
+		out = append(out, measure(c.Expression())...)
+	}
+	return out
+}
+
+// rawIndex: the i-th element regardless of the negative / forward index options of the stack
+func rawIndex(s stackage.Stack, i int) (any, bool) {
+	return s.Index(i)
+}
+
+func init() {
+	evaluators["measure"] = func(in Node, _ any) any { return measure(BuildNode(in)) }
+	treeGenerators["measure"] = func(g *treeGen) (Node, any) {
+		g.nils = true
+		return g.stack(0), nil
+	}
+}
+
 func cmdCases(args []string) {
 	fs := flag.NewFlagSet("cases", flag.ExitOnError)
 	file := fs.String("cases", "", "case ndjson from TLC")
